@@ -442,12 +442,14 @@ static std::string run_cmd(const std::vector<std::string>& a) {
         const int b = slot_of(a[3]);
         const std::string href(U(s).href().data(), U(s).href().length());
         const bool srcvalid = U(s).is_valid();
+        if (!srcvalid) return "reparse skipped";
         validation_errc r = b >= 0 ? U(d).parse(href, U(b)) : U(d).parse(href);
         refresh_sp(d);
         const bool same = srcvalid && r == validation_errc::ok && obs(U(d)) == obs(U(s)) && U(d) == U(s);
         return std::string("reparse ") + (r == validation_errc::ok ? "ok" : "fail") + " same=" + (same ? "1" : "0") + " " + state(d);
     }
     if (c == "equals") { need(3); const int d = slot_of(a[1]), s = slot_of(a[2]); if (d < 0 || s < 0) return "ERR"; const bool xf = a[3] == "1";
+        if (!U(d).is_valid() || !U(s).is_valid()) return "equals skipped";
         std::ostringstream o; o << "equals " << (upa::equals(U(d), U(s), xf) ? 1 : 0) << " eq=" << ((U(d) == U(s)) ? 1 : 0); return o.str(); }
     // ---- params linked to a url
     if (c == "sp") { need(1); const int s = slot_of(a[1]); if (s < 0) return "ERR"; g_sp[s] = &U(s).search_params(); return "sp " + state(s); }
